@@ -1,5 +1,6 @@
 /- Line-protocol verbs for C08. -/
 import FwdVerif.Model.C08
+import FwdVerif.Model.C08Stack
 
 namespace FwdVerif
 namespace C08
@@ -43,6 +44,29 @@ def hdrState (bs : Bytes) : Option HdrState :=
   | .ok (h, _) => some (.ok h)
   | .err e => some (.failed e)
   | .panic => none
+
+def encLayer : Layer → String
+  | .proxyproto => "proxyproto" | .ratelimit => "ratelimit" | .track => "track" | .tls => "tls"
+
+def encLayers (ls : List Layer) : String :=
+  if ls.isEmpty then "-" else ">".intercalate (ls.map encLayer)
+
+def encDone (d : TDone) : String :=
+  match d.res with
+  | .accepted h rest =>
+    s!"accepted t={d.time} rest={hexOfBytes rest} ra={encSel (remoteSel (.ok h))} la={encSel (localSel (.ok h))}"
+  | .refused e => s!"refused t={d.time} {encCls e.cls}"
+  | .timedOut => s!"timedout t={d.time}"
+  | .crashed => "panic"
+
+def decSched (sched : String) : Option (List Arr) :=
+  (splitList sched).mapM fun e =>
+    match e.splitOn ":" with
+    | [t, hx] => do
+      let t ← natOf t
+      let d ← bytesOfHex hx
+      pure (⟨t, d⟩ : Arr)
+    | _ => none
 
 def handle : List String → String
   /- read <stream>: what ReadHeader does on a stream that ends after these bytes -/
@@ -131,6 +155,30 @@ def handle : List String → String
       | .timedOut => s!"timedout t={d.time}"
       | .crashed => "panic"
     | _, _, _, _, _ => "bad-op"
+  /- stack <product|limiter-first> <proxy> <readLimit> <writeLimit> <track> <tls> <timeout> <start> <rx> <sched>:
+     the header read of a connection accepted from `forwarder.Listener` in that configuration, stacked in the
+     product's order or with the limiter below the PROXY layer; rx = `-` (no rx bucket) or cost:burst:zeroAt -/
+  | ["stack", order, px, rl, wl, tr, tl, to, st, rx, sched] =>
+    let rx? : Option (Option Limiter) :=
+      if rx = "-" then some none else
+      match rx.splitOn ":" with
+      | [c, b, z] => do
+        let c ← natOf c
+        let b ← natOf b
+        let z ← natOf z
+        pure (some ⟨c, b, z⟩)
+      | _ => none
+    match boolOf px, natOf rl, natOf wl, boolOf tr, boolOf tl, natOf to, natOf st, rx?, decSched sched with
+    | some px, some rl, some wl, some tr, some tl, some to, some st, some rx, some sched =>
+      let c : StackCfg := { proxy := px, readLimit := rl, writeLimit := wl, trackTraffic := tr, tls := tl }
+      let s? : Option (List Layer) :=
+        if order = "product" then some (productStack c) else if order = "limiter-first" then some (limiterFirstStack c) else none
+      match s? with
+      | none => "bad-op"
+      | some s =>
+        let debt := match rx with | some l => l.debtAt st | none => 0
+        s!"layers={encLayers s} below={encLayers (belowProxy s)} delay={headerReadDelay s debt} {encDone (stackRead s rx to st sched)}"
+    | _, _, _, _, _, _, _, _, _ => "bad-op"
   | _ => "bad-op"
 
 end C08
